@@ -33,6 +33,7 @@ inductive Phase where
   | ready (obj : ProxyRec) (epoch : Nat) (inp : ProxyInput)
   | stopped (cur : ProxyRec) (epoch : Nat) (inp : ProxyInput)   -- inside `Proxy.Update`: stopped, old addresses
   | restart (mid : ProxyRec) (epoch : Nat) (inp : ProxyInput)   -- inside `Proxy.Update`: stopped, re-addressed
+  | replacing (x : PopEntry)   -- inside `AddOrReplace`: the existing proxy is stopped, the new one not yet started
   | done (resp : Response)
 deriving Inhabited
 
@@ -76,6 +77,7 @@ inductive Kind where
   | single            -- one block: `Api.step`
   | update (name : String)
   | toxic (name : String)
+  | replace           -- `POST /populate`: `AddOrReplace` stops the existing proxy, then starts the new one
 deriving DecidableEq, Repr
 
 /-- Which handler (hence which block structure) a request runs. -/
@@ -92,6 +94,7 @@ def kindOf (r : Request) : Kind :=
       | ["proxies", n, "toxics"], _ => .toxic n
       | ["proxies", _, "toxics", _], .get => .single
       | ["proxies", n, "toxics", _], _ => .toxic n
+      | ["populate"], _ => .replace
       | _, _ => .single
 
 /-- The current record of the object (name, epoch) if it is still the registered one. -/
@@ -100,6 +103,29 @@ def CState.live (c : CState) (n : String) (ep : Nat) : Option ProxyRec :=
 
 def portOf (e : Env) (listen : String) : Option Nat := (e.lookup listen).map (·.port)
 
+/-- The collection lock, when it is held across two blocks (`AddOrReplace` between
+`existing.Stop()` and `proxy.Start()`), as an entry of `locked`: no proxy has this name (the
+harness never uses it). -/
+def collLock : String := "\u0000collection"
+
+/-- `AddOrReplace` for a single-entry populate that replaces a *running* proxy: the entry and
+the registry after `existing.Stop()`.  The collection lock is held from here to the start of
+the replacement, but `Proxy.Update` of another proxy takes only that proxy's mutex: it can bind
+the port that was just freed. -/
+def stopFirst (e : Env) (s : State) (r : Request) : Option (PopEntry × State) :=
+  match decodePopulate r.body with
+  | some [x] =>
+    if x.name == "" || x.upstream == "" then none else
+    match s.find x.name with
+    | some ex =>
+      (match e.resolve x.listen with
+       | none => none
+       | some _ =>
+         if e.sameListen ex.listen x.listen && ex.upstream == x.upstream then none
+         else if ex.enabled then some (x, s.replace { ex with enabled := false }) else none)
+    | none => none
+  | _ => none
+
 /-- One block of request `r` in phase `ph`. -/
 def advance (v : UpdVariant) (e0 : Env) (c : CState) (r : Request) (ph : Phase) : CState × Phase :=
   -- ports held by zombie listeners are busy for everybody
@@ -107,7 +133,18 @@ def advance (v : UpdVariant) (e0 : Env) (c : CState) (r : Request) (ph : Phase) 
   match ph with
   | .done resp => (c, .done resp)
   | .start =>
+    -- every handler starts by taking the collection lock (for reading or writing)
+    if c.locked.contains collLock then (c, .start) else
     (match kindOf r with
+     | .replace =>
+       (match stopFirst e c.s r with
+        | some (x, s1) =>
+          -- `existing.Stop()` takes the proxy's mutex: it waits for a half-way `Proxy.Update`
+          if c.locked.contains x.name then (c, .start) else
+          ({ c with s := s1, locked := collLock :: c.locked }, .replacing x)
+        | none =>
+          let (s', resp) := step v e c.s r
+          ({ c with s := s', epochs := reEpoch c.epochs c.s s', dead := c.dead ++ retired c.epochs c.s s' }, .done resp))
      | .single =>
        -- `Remove` stops the proxy under its mutex: it waits for a half-way `Proxy.Update`
        let blocked := match r.path, r.method with
@@ -141,7 +178,7 @@ def advance (v : UpdVariant) (e0 : Env) (c : CState) (r : Request) (ph : Phase) 
           let (s1, resp) := step v e [d0] r
           let d1 := (s1.find n).getD d0
           ({ c with dead := ((n, ep), d1) :: c.dead.filter (·.1 != (n, ep)) }, .done resp))
-     | .single => (c, .done (errResp .internal)))
+     | _ => (c, .done (errResp .internal)))
   | .ready obj ep inp =>
     (match kindOf r with
      | .update n =>
@@ -175,6 +212,29 @@ def advance (v : UpdVariant) (e0 : Env) (c : CState) (r : Request) (ph : Phase) 
           ({ c with zombies := z' ++ z, dead := ((n, ep), p'') :: c.dead.filter (·.1 != (n, ep)) },
            .done (if ok then Api.ok 200 (.proxy p'') else errResp .internal)))
      | _ => (c, .done (errResp .internal)))
+  | .replacing x =>
+    -- second part of `AddOrReplace` (a simplification: it waits for a `Proxy.Update` that is
+    -- half-way on the old object): start the new proxy — on failure the old one stays
+    -- registered as it is now —, then register it in place of the old object.  Whatever a
+    -- `Proxy.Update` made of the old object in between is not looked at again: if it is
+    -- running, its listener is from now on owned by nobody.
+    if (c.locked.erase collLock).contains x.name then (c, .replacing x) else
+    let c1 := { c with locked := c.locked.erase collLock }
+    let np : ProxyRec := ⟨x.name, x.listen, x.upstream, false, []⟩
+    let cur := c1.s.find x.name
+    let curOn : List Nat := match cur with
+      | some q => if q.enabled then (match portOf e q.listen with | some pt => [pt] | none => []) else []
+      | none => []
+    let e2 : Env := { e with busy := e.busy ++ curOn }
+    let fin (p : ProxyRec) : CState × Phase :=
+      ({ c1 with s := c1.s.replace p, epochs := bump c1.epochs x.name, zombies := c1.zombies ++ curOn,
+                 dead := c1.dead ++ (match cur with | some q => [((x.name, c1.epoch x.name), q)] | none => []) },
+       .done ⟨201, .populate [p] none, false, false⟩)
+    if x.enabled.getD true then
+      match startProxy e2 c1.s np with
+      | some p => fin p
+      | none => (c1, .done ⟨500, .populate [] (some .internal), true, false⟩)
+    else fin np
   | .stopped off ep inp =>
     let mid := { off with listen := inp.listen, upstream := inp.upstream }
     ({ c with s := c.s.replace mid }, .restart mid ep inp)
